@@ -90,6 +90,18 @@ func writeBig(sb *strings.Builder, s string, m Mode) {
 	sb.WriteString(s)
 }
 
+// writeZone: in the typed form a time is the instant and the offset of its location (an exact
+// copy keeps both); in the value form the instant alone.
+func writeZone(sb *strings.Builder, t time.Time, m Mode) {
+	if m != Typed {
+		return
+	}
+	if _, off := t.Zone(); off != 0 {
+		sb.WriteByte('@')
+		sb.WriteString(strconv.Itoa(off))
+	}
+}
+
 func write(sb *strings.Builder, v any, m Mode) {
 	switch tv := v.(type) {
 	case nil:
@@ -143,9 +155,11 @@ func write(sb *strings.Builder, v any, m Mode) {
 	case time.Time:
 		sb.WriteString("t:")
 		sb.WriteString(strconv.FormatInt(tv.UnixNano(), 10))
+		writeZone(sb, tv, m)
 	case gen.Time:
 		sb.WriteString("t:")
 		sb.WriteString(strconv.FormatInt(time.Time(tv).UnixNano(), 10))
+		writeZone(sb, time.Time(tv), m)
 	case []any:
 		sb.WriteByte('[')
 		for i, e := range tv {
